@@ -114,20 +114,24 @@ def st_delayed(draw):
         # operations that allocate while the precompiled subroutine is still held back
         middle = [["newarr", 3, [draw(st.integers(0, 3)), 2]], ["add", ["elem", 3, 0], 1, None]] + middle
     tail = adds(draw(st.integers(0, 2)))
+    # operations written after compile() that use what the held subroutine creates (its outcome array): they stay pending and
+    # reach the controller with the first flush after the commit
+    after = [["add", ["elem", 2, 0], draw(st.integers(1, 3)), None] for _ in range(draw(st.integers(0, 2)))] if draw(st.booleans()) else []
     no_template = draw(st.integers(0, 3)) == 0
     if no_template:
         # a block without template operands may be committed as compiled, without instantiate()
         seg = [x if x[0] != "rot" else ["rot", x[1], x[2], draw(st.integers(0, 31)), x[4]] for x in seg]
     return {
-        "delayed": True, "prefix": prefix, "segment": seg, "middle": middle, "tail": tail,
+        "delayed": True, "prefix": prefix, "segment": seg, "middle": middle, "after": after, "tail": tail,
         "values": {"t0": draw(st.integers(0, 255))}, "nv": draw(st.integers(0, 2)) == 0, "no_instantiate": no_template,
         "outcomes": draw(st.lists(st.integers(0, 1), max_size=4)), "qubits": 2,
     }
 
 
 def check_delayed(case) -> Dict[str, Any]:
-    a_stmts = case["prefix"] + case["segment"] + [["pcompile"]] + case["middle"] + [["pcommit"]] + case["tail"] + [["flush"]]
-    b_stmts = case["prefix"] + case["middle"] + case["segment"] + [["pflush"]] + case["tail"] + [["flush"]]
+    after = case.get("after", [])
+    a_stmts = case["prefix"] + case["segment"] + [["pcompile"]] + case["middle"] + after + [["pcommit"]] + case["tail"] + [["flush"]]
+    b_stmts = case["prefix"] + case["middle"] + case["segment"] + [["pflush"]] + after + case["tail"] + [["flush"]]
     A = Recorder(case, "A")
     A.run(a_stmts)
     B = Recorder(case, "B")
@@ -377,7 +381,7 @@ def shard(ctx: Ctx) -> None:
         v = case["values"]["t0"] if isinstance(rotx[3], dict) else rotx[3]
         d = rotx[4]
         nt = v % (2 ** (d + 1)) != 0 and bool(case["middle"])
-        labels = ["delayed", "nv" if case["nv"] else "vanilla"] + (["flush-between-compile-and-commit"] if info.get("middle_flush") else []) + (["ops-between-compile-and-commit"] if case["middle"] else [])
+        labels = ["delayed", "nv" if case["nv"] else "vanilla"] + (["flush-between-compile-and-commit"] if info.get("middle_flush") else []) + (["ops-between-compile-and-commit"] if case["middle"] else []) + (["pending-ops-that-use-the-held-subroutine's-array"] if case.get("after") else [])
         stt.case([case["prefix"], case["segment"], case["middle"], case["tail"], case["values"], case["nv"]], nt, labels, sample=case if len(str(case)) < 900 else None)
 
     ctx.search(st_delayed(), body_delayed, n // 2, name="c06-delayed", salt=3)
